@@ -42,7 +42,7 @@ def call(m, name, args, g, I):
     if name == 'posix_memalign':
         eg, key = m.vis(g)
         a = m.malloc(args[2], args[1], eg)
-        m.store(args[0], 8, a, eg)
+        m.store(args[0], 8, a, g if m._private(args[0]) else eg)
         return g, 0, False
     if name in DELETE:
         eg, key = m.vis(g)
@@ -106,9 +106,7 @@ def call(m, name, args, g, I):
     if name in ('pthread_mutex_init', 'pthread_mutex_destroy'):
         return g, 0, False
     if name in ('memcpy', 'memmove', '__memcpy_chk', '__memmove_chk'):
-        eg, key = m.vis(g)
-        for n, c in _lens(m, args[2], eg):
-            _copy(m, args[0], args[1], n, And(eg, c))
+        _memcpy(m, args[0], args[1], args[2], g)
         return g, args[0], False
     if name == 'memset':
         intrinsic(m, 'llvm.memset.p0i8.i64', [args[0], Trunc(args[1], 32, 8) if isinstance(args[1], Term) else args[1] & 255, args[2], False], g, I)
@@ -136,14 +134,35 @@ def call(m, name, args, g, I):
     raise Unsupported('external function ' + name)
 
 
-def _copy(m, dst, src, n, g, move=False):
+def _memcpy(m, dst, src, nterm, g):
+    """copies between thread-private stack memory are replayed in every pass (not visible); a copy from shared memory into
+    private memory is visible for its loads, whose results are kept across passes like those of ordinary loads, while the
+    private stores are replayed; everything else is one visible operation"""
+    pd = m._private(dst); ps = m._private(src)
+    if pd and ps:
+        for n, c in _lens(m, nterm, g): _copy(m, dst, src, n, And(g, c))
+        return
+    eg, key = m.vis(g)
+    if pd and key is not None:
+        for n, c in _lens(m, nterm, eg): _copy(m, dst, src, n, And(eg, c), keepkey=key, sg=And(g, c))
+        return
+    if ps and key is not None:
+        for n, c in _lens(m, nterm, eg): _copy(m, dst, src, n, And(g, c), sg=And(eg, c))
+        return
+    for n, c in _lens(m, nterm, eg): _copy(m, dst, src, n, And(eg, c))
+
+
+def _copy(m, dst, src, n, g, move=False, keepkey=None, sg=None):
+    """g guards the loads, sg (default g) the stores; keepkey: keep the loaded values across passes under this key"""
     if n == 0: return
+    if sg is None: sg = g
     if isinstance(dst, Term) or isinstance(src, Term):
         dc = m.cands(dst, g, 'memcpy'); sc = m.cands(src, g, 'memcpy')
         for d, c1 in dc:
             for s, c2 in sc:
-                gg = And(g, And(c1, c2))
-                if gg is not False: _copy(m, d, s, n, gg, move)
+                cc = And(c1, c2)
+                gg = And(g, cc)
+                if gg is not False: _copy(m, d, s, n, gg, move, None if keepkey is None else keepkey + (('m', d, s),), And(sg, cc))
         return
     chunks = []
     off = 0
@@ -152,8 +171,18 @@ def _copy(m, dst, src, n, g, move=False):
         while c > 1 and ((dst + off) % c or (src + off) % c or off + c > n): c //= 2
         chunks.append((off, c)); off += c
     vals = [(off, c, m.load(src + off, c, g, 'memcpy-read')) for off, c in chunks]
+    if keepkey is not None:
+        kept = []
+        bf = m.before(keepkey[:len(keepkey) - 1] if isinstance(keepkey[-1], tuple) and keepkey[-1] and keepkey[-1][0] == 'm' else keepkey)
+        for off, c, v in vals:
+            sub = keepkey + (('c', off),)
+            prev = m.hist.get(sub)
+            r = v if prev is None else Ite(bf, prev, v, c * 8)
+            m.hist[sub] = r
+            kept.append((off, c, r))
+        vals = kept
     for off, c, v in vals:
-        m.store(dst + off, c, v, g, 'memcpy-write')
+        m.store(dst + off, c, v, sg, 'memcpy-write')
 
 
 def _lens(m, n, g):
@@ -178,12 +207,11 @@ def intrinsic(m, name, args, g, I):
     if name.startswith('llvm.expect'):
         return g, args[0], False
     if name.startswith('llvm.memcpy') or name.startswith('llvm.memmove'):
-        eg, key = m.vis(g)
-        for n, c in _lens(m, args[2], eg):
-            _copy(m, args[0], args[1], n, And(eg, c))
+        _memcpy(m, args[0], args[1], args[2], g)
         return g, None, False
     if name.startswith('llvm.memset'):
-        eg, key = m.vis(g)
+        if m._private(args[0]): eg = g          # thread-private stack memory: not a context-switch point, replayed in every pass
+        else: eg, key = m.vis(g)
         b = args[1]
         for n, c in _lens(m, args[2], eg):
             gg = And(eg, c)
